@@ -377,6 +377,27 @@ fn props_from(v: &Value) -> Vec<u8> {
         p.push(0x1f);
         put_str(&mut p, x);
     }
+    // publish properties the handler must see unchanged
+    if let Some(x) = v.get("pfi").and_then(Value::as_i64) {
+        p.push(0x01);
+        p.push(x as u8);
+    }
+    if let Some(x) = v.get("mei").and_then(Value::as_i64) {
+        p.push(0x02);
+        p.extend_from_slice(&(x as u32).to_be_bytes());
+    }
+    if let Some(x) = v.get("ct").and_then(Value::as_str) {
+        p.push(0x03);
+        put_str(&mut p, x);
+    }
+    if let Some(x) = v.get("rt").and_then(Value::as_str) {
+        p.push(0x08);
+        put_str(&mut p, x);
+    }
+    if let Some(x) = v.get("cd").and_then(Value::as_str) {
+        p.push(0x09);
+        put_str(&mut p, x);
+    }
     for i in 0..gi(v, "up", 0) {
         p.push(0x26);
         put_str(&mut p, &format!("k{i}"));
